@@ -7,7 +7,7 @@ IDN_FAULT_CFGS = ("fault", "single", "multi", "lockstep-fault", "ctxfault")
 
 
 # ------------------------------------------------------------------ exec helpers
-def exec_plans(exe, plans, log=False, timeout=120):
+def exec_plans(exe, plans, log=False, timeout=60):
     """Run a list of plans in ONE fresh process.  -> dict(rc, results=[...], first_bad, cls, detail, hash, logs)"""
     sd = core.scratch_dir()
     path = os.path.join(sd, "exec.%d.%d.json" % (os.getpid(), exec_plans.counter))
